@@ -14,7 +14,7 @@ CHECKS = {
          "5.C15"),
 }
 
-_SS = ("Small-scope exhaustive exploration of the real implementation: every key set of the bounded universes (all subsets of a 21/85-string universe over a seed-rotated 4-symbol alphabet up to the tier's size), every scaffold (257-bit root / two big levels / short tables of each size / bit-offset shifts / lifted prefixes) applied to every smaller subset, regular large families; x every run pattern of equal adjacent values and nil values x encoders x option combinations x {fresh, Unmarshal-loaded, proto-loaded} instances. ")
+_SS = ("Small-scope exhaustive exploration of the real implementation: every key set of the bounded universes (all subsets of a 21/85-string universe over a seed-rotated 4-symbol alphabet up to the tier's size), every scaffold (257-bit root / two big levels / short tables of each size / bit-offset shifts / lifted prefixes) applied to every smaller subset, regular large families, measured boundary sweeps (key lists chosen until every structure of the format ends on every bit position of a 64-bit word), every tuple of stored tail / prefix lengths; x every run pattern of equal adjacent values and nil values x encoders x option combinations x {fresh, Unmarshal-loaded, proto-loaded into a used receiver, Unmarshal-loaded into a used receiver} instances, a bystander trie built between each build and its questions. ")
 _NOTE = "Bounded: 4-symbol alphabets, <= 4 (quick) / 6 (thorough) free keys per set plus scaffolds; trusts the Go toolchain, the harness' sorted-slice reference model and (for expected values) the library's own encoders, which C15 decides."
 CHECKS.update({
  "C01": ("model_checking", "small-scope exhaustive input enumeration on the real builder and lookup code against a sorted-slice reference model",
